@@ -5,6 +5,7 @@ hubprops.PLAN["C14"] = [
     {"fam": "Routing", "num_q": 50, "num_t": 600, "depth": 80},
     {"fam": "Failures", "num_q": 60, "num_t": 600, "depth": 80},
     {"fam": "death-during-manager-msg", "scen": scenarios.death_during_manager_msg, "num_q": 0, "num_t": 0, "prof_q": 3, "prof_t": 8},
+    {"fam": "no-notice-types", "scen": scenarios.no_notice_types, "num_q": 0, "num_t": 0, "prof_q": 2, "prof_t": 4},
 ]
 
 
